@@ -18,7 +18,7 @@ import (
 func init() {
 	register(&Check{
 		ID:   "C15",
-		Rule: "case = (nesting shape, reader type, known-prefix length): messages for the recursive zoo type Node are synthesised byte by byte with exactly d nesting levels (levels = nested struct/list/set/map values) for every d in {1..70, 96..1120 step 32, bound-2..bound+2, 2048, 10^4, 10^5, 10^6} (thorough: every d<=2048); shapes: struct->struct, ->list->struct, ->set->struct, ->map value, ->map key, list/map of by-value structs, seeded mixtures; readers: Node (known position), NodeOld (skipped, no holder), NodeU (skipped into a holder), unknown field id. Oracle: d<=48 accepted; d>decoder bound (exported by the hook, 1023) rejected with ProtocolException DEPTH_LIMIT; in between only those two outcomes and one threshold per case (monotone); child stack capped at 256 MiB. distinct = distinct (shape, reader, prefix); non-trivial = both an accepted and a rejected depth were observed",
+		Rule: "case = (nesting shape, reader type, known-prefix length): messages for the recursive zoo type Node are synthesised byte by byte with exactly d nesting levels (levels = nested struct/list/set/map values) for every d in {1..70, 96..1120 step 32, bound-2..bound+2, 2048, 10^4, 10^5, 10^6} (thorough: every d<=2048); shapes: struct->struct, ->list->struct, ->set->struct, ->map value, ->map key, list/map of by-value structs, wide lists (2/40/1022/1500 elements, the last one nesting on), seeded mixtures; readers: Node (known position), NodeOld (skipped, no holder), NodeU (skipped into a holder), unknown field id, ReqNode (recursion through a required list with a required field after it). Oracle: d<=48 accepted; d>decoder bound (exported by the hook, 1023) rejected with ProtocolException DEPTH_LIMIT; in between only those two outcomes and one threshold per case (monotone); child stack capped at 256 MiB. distinct = distinct (shape, reader, prefix); non-trivial = both an accepted and a rejected depth were observed",
 		Plan: func(tier string) []BuildPlan {
 			if tier == "thorough" {
 				return []BuildPlan{{"plain", c15Cases()}, {"checkptr", c15Cases()}, {"asan", c15Cases() / 3}}
@@ -30,8 +30,13 @@ func init() {
 	})
 }
 
-var c15Steps = []string{"next", "kids", "kset", "byval", "bykey", "vals", "mval"}
-var c15Readers = []string{"Node", "NodeOld", "NodeU", "unknown-id"}
+var c15Steps = []string{"next", "kids", "kset", "byval", "bykey", "vals", "mval", "kidsW", "valsW"}
+var c15Readers = []string{"Node", "NodeOld", "NodeU", "unknown-id", "ReqNode"}
+
+// c15Width is the element count of the wide list steps ("kidsW", "valsW"): the
+// first elements are empty structs, the last one carries the rest of the nest.
+// Element count must not influence the depth accounting.
+var c15Widths = []int{2, 40, 1022, 1500}
 var c15Prefixes = []int{0, 10, 40}
 
 const c15Mixtures = 6
@@ -48,13 +53,25 @@ func stepLevels(s string) int {
 
 // deepMessage synthesises a Node message. steps[i] is the step taken at the
 // i-th struct; the innermost struct is empty.
-func deepMessage(steps []string) []byte {
-	var open [][]byte
+func deepMessage(steps []string) []byte { return deepMessageW(steps, 2) }
+
+func deepMessageW(steps []string, width int) []byte {
 	var b []byte
 	var closers [][]byte
-	_ = open
+	wide := func(field byte) {
+		b = append(b, 0x0f, 0, field, 0x0c, byte(width>>24), byte(width>>16), byte(width>>8), byte(width))
+		for i := 0; i < width-1; i++ {
+			b = append(b, 0) // empty struct elements before the one that nests on
+		}
+	}
 	for _, s := range steps {
 		switch s {
+		case "kidsW":
+			wide(3)
+			closers = append(closers, nil)
+		case "valsW":
+			wide(7)
+			closers = append(closers, nil)
 		case "next":
 			b = append(b, 0x0c, 0, 2)
 			closers = append(closers, nil)
@@ -82,6 +99,33 @@ func deepMessage(steps []string) []byte {
 	for i := len(closers) - 1; i >= 0; i-- {
 		b = append(b, closers[i]...)
 		b = append(b, 0) // STOP of the struct that held the step
+	}
+	return b
+}
+
+// deepReqMessage synthesises a message for zoo.ReqNode: steps are "next" (field 1)
+// or "kids" (the required list, field 2); every struct carries its required
+// fields, the ones after the recursive field included.
+func deepReqMessage(steps []string) []byte {
+	var b []byte
+	var closers [][]byte
+	emptyKids := []byte{0x0f, 0, 2, 0x0c, 0, 0, 0, 0}
+	v := []byte{0x08, 0, 3, 0, 0, 0, 5}
+	for _, s := range steps {
+		if s == "next" {
+			b = append(b, 0x0c, 0, 1)
+			closers = append(closers, append(append([]byte{}, emptyKids...), v...))
+		} else {
+			b = append(b, 0x0f, 0, 2, 0x0c, 0, 0, 0, 1)
+			closers = append(closers, v)
+		}
+	}
+	b = append(b, emptyKids...)
+	b = append(b, v...)
+	b = append(b, 0)
+	for i := len(closers) - 1; i >= 0; i-- {
+		b = append(b, closers[i]...)
+		b = append(b, 0)
 	}
 	return b
 }
@@ -127,7 +171,7 @@ func runC15(c *harness.Ctx, idx int) {
 		}
 	}
 	bound, _ := frugal.VerifLimits()
-	c.Describe("shape=%s reader=%s known-prefix=%d decoder-bound=%d", strings.Join(pattern, ">"), reader, prefix, bound)
+	c.Describe("shape=%s reader=%s known-prefix=%d width=%d decoder-bound=%d", strings.Join(pattern, ">"), reader, prefix, c15Widths[idx%len(c15Widths)], bound)
 	c.Hint(reader + "/" + strings.Join(pattern, ">"))
 	c.Shape(fmt.Sprint(pattern, reader, prefix))
 	c.Tag("reader:" + reader)
@@ -157,9 +201,33 @@ func runC15(c *harness.Ctx, idx int) {
 	}
 	lastOK, firstFail := 0, 0
 	accepted, rejected := 0, 0
+	width := c15Widths[idx%len(c15Widths)]
+	if reader == "ReqNode" {
+		// ReqNode only has the struct and the list hop
+		for i, p := range pattern {
+			if p != "next" {
+				pattern[i] = "kids"
+			}
+		}
+	}
 	for _, d := range ds {
 		steps, levels := stepsFor(pattern, prefix, d)
-		msg := deepMessage(steps)
+		if width >= 1000 && d > 3000 {
+			// keep wide-list messages bounded: only the first 40 wide steps stay wide
+			n := 0
+			for i, st := range steps {
+				if st == "kidsW" || st == "valsW" {
+					if n++; n > 40 {
+						steps[i] = st[:4]
+					}
+				}
+			}
+		}
+		msg := deepMessageW(steps, width)
+		if reader == "ReqNode" {
+			msg = deepReqMessage(steps)
+			levels++ // every ReqNode struct carries its (empty) required list: one more level below the innermost struct
+		}
 		if reader == "unknown-id" {
 			// the whole nest hangs under a field id no reader knows
 			inner := msg
@@ -180,6 +248,8 @@ func runC15(c *harness.Ctx, idx int) {
 			dst = &zoo.NodeOld{}
 		case "NodeU":
 			dst = &zoo.NodeU{}
+		case "ReqNode":
+			dst = &zoo.ReqNode{}
 		}
 		c.Step("d=%d levels=%d len=%d shape=%s reader=%s prefix=%d", d, levels, len(msg), strings.Join(pattern, ">"), reader, prefix)
 		dr := fDecode(msg, dst)
